@@ -736,12 +736,12 @@ def run(ctx):
                                                    for m in MEMBERS},
                              'payloads': grid_size(npm), 'protocols': list(cc.PROTO_NAMES)}
     # (d) random payloads
-    nrand = 60000 if ctx.deep else 6000
+    nrand = 60000 if ctx.deep else 4000
     cases = [(rng.choice(cc.PROTO_NAMES), random_payload(rng)) for _ in range(nrand)]
     evaluate_decode(ctx, res, cases, 'random-payload')
     res['scopes']['random_payloads'] = nrand
     # (e) round trips
-    nrt = 40000 if ctx.deep else 4000
+    nrt = 40000 if ctx.deep else 3000
     rts = [gen_rt(rng) for _ in range(nrt)]
     evaluate_roundtrips(ctx, res, rts, 'roundtrip')
     res['scopes']['roundtrips'] = nrt
